@@ -226,13 +226,15 @@ CHECKS["C02"] = {
              "a handler starts at most once per call. stale_from_server: the harness plays the server at wire level and sends late packets of the previous stream (messages of the old RPC, error, close, half-close, cancel, "
              "unknown control kinds, multi-frame) before answering the current one, at drawn moments (before the stream exists, after the request is on the wire); the real client must complete every RPC with exactly its own messages. "
              "stale_from_client: the harness plays the client at wire level against the real server: late packets of the previous stream, abandoned InvokeMetadata packets, then the next invoke; every call reaches its handler exactly once, "
-             "with exactly its own metadata, and the server's per-stream output is that call's own outcome. Non-trivial: leftover bytes in flight when the next RPC started or concurrent callers (sequences); stale/abandoned packets sent (peers)."),
+             "with exactly its own metadata, and the server's per-stream output is that call's own outcome. Non-trivial: leftover bytes in flight when the next RPC started or concurrent callers (sequences); stale/abandoned packets sent (peers). " 
+             "writer_model: the frame writer shared by the streams of a connection, stepped through 1..14 WriteFrame/Flush/Reset operations (buffer sizes 1/16/64/1000/default, frames of 0..5000 bytes) against a model written from its documentation: the bytes handed to the transport are exactly the frames written since the last reset, flushed when the buffer is full or on Flush, and Empty() says whether anything is pending (nothing written on one stream is left behind for the next). Non-trivial there: a reset with data pending."),
     "assumptions": E3_ASSUME + ["the wire-level peers only emit id sequences a conforming endpoint could emit (non-decreasing ids); anything else legitimately kills the connection",
                                 "known finding F5 shapes are excluded from the generated handler programs (see C06)"],
     "subs": [
         {"test": "TestC02Sequences", "prop": "C02/sequences", "quick": 12000, "thorough": 400000, "shards_quick": 16, "shards_thorough": 16, "gomaxprocs": 1},
         {"test": "TestC02StaleFromServer", "prop": "C02/stale_from_server", "quick": 6000, "thorough": 200000, "shards_quick": 8, "shards_thorough": 16, "gomaxprocs": 1},
         {"test": "TestC02StaleFromClient", "prop": "C02/stale_from_client", "quick": 6000, "thorough": 200000, "shards_quick": 8, "shards_thorough": 16, "gomaxprocs": 1},
+        {"test": "TestWriterModel", "prop": "C02/writer_model", "pkg": "./wire", "quick": 40000, "thorough": 2000000, "shards_quick": 4, "shards_thorough": 8, "env": {"VERIF_ID_OVERRIDE": "C02"}},
     ],
     "floors": {"C02/sequences": {"leftover_bytes_when_next_rpc_started": 0.3, "concurrent_callers": 0.244}, "C02/stale_from_server": {"stale_packets_sent": 0.4},
                "C02/stale_from_client": {"stale_packets_sent": 0.4, "abandoned_call_before": 0.3}},
@@ -245,11 +247,13 @@ CHECKS["C07"] = {
              "Close/CloseSend/cancel, a receiver) and handler goroutines, writer buffer 1 (every frame is its own transport write) or small, split size 1/5/64, both cancel modes, 1..4 of 19 scheduling points held "
              "(before the write lock, between frames, before terminal packets, around the semaphore and stream publication), stall windows, up to 300 weighted director choices. Oracle on the bytes each "
              "transport end accepted: whole well-formed frames (reference parser), (stream, message) ids non-decreasing, one kind per id, no frame after the done frame of an id, no trailing partial frame unless a write was rejected, "
-             "accepted by the current drpcwire.Reader; the transport never saw two writes or two reads in flight; Close at most once per end. Non-trivial: more than 8 frames and (consecutive streams or points held)."),
+             "accepted by the current drpcwire.Reader; the transport never saw two writes or two reads in flight; Close at most once per end. Non-trivial: more than 8 frames and (consecutive streams or points held). " 
+             "writer_model: as under C02 - the frame writer against its model over WriteFrame/Flush/Reset histories."),
     "assumptions": E3_ASSUME + ["weak-memory reorderings are only touched by the thorough tier's -race build of the same test"],
     "subs": [
         {"test": "TestC07FrameStream", "prop": "C07/frame_stream", "quick": 16000, "thorough": 400000, "shards_quick": 16, "shards_thorough": 16, "gomaxprocs": 1},
         {"test": "TestC07FrameStream", "prop": "C07/frame_stream", "thorough": 32000, "shards_thorough": 16, "gomaxprocs": 1, "race": True, "thorough_only": True},
+        {"test": "TestWriterModel", "prop": "C07/writer_model", "pkg": "./wire", "quick": 40000, "thorough": 2000000, "shards_quick": 4, "shards_thorough": 8},
     ],
     "floors": {"C07/frame_stream": {"consecutive_streams": 0.329, "points": 0.363, "@nontrivial": 0.231}},
 }
